@@ -57,14 +57,21 @@ Proof. exact exists_after_step. Qed.
 Print Assumptions C16_map_laws.
 
 (* front-end delivery: each listed live id once per listing, unknown ids skipped, in order *)
-Theorem C16_front_delivery_count : forall live l i,
-  zcount i (front_push live l) = if zmem i live then zcount i l else 0%nat.
+Theorem C16_front_delivery_count : forall live closing l i,
+  zcount i (front_push live closing l) = if zmem i live && negb (zmem i closing) then zcount i l else 0%nat.
 Proof. exact deliver_count. Qed.
 Print Assumptions C16_front_delivery_count.
 
-Theorem C16_front_delivery_order : forall live l, subseq (front_push live l) l.
+Theorem C16_front_delivery_order : forall live closing l, subseq (front_push live closing l) l.
 Proof. exact deliver_order. Qed.
 Print Assumptions C16_front_delivery_order.
+
+(* connections that are closed at network level but not yet removed get nothing, and what the
+   other listed connections get is what they would get without them - wherever in the list they stand *)
+Theorem C16_front_closing_frame : forall live closing l,
+  front_push live closing l = filter (fun i => negb (zmem i closing)) (front_push live [] l).
+Proof. exact deliver_frame. Qed.
+Print Assumptions C16_front_closing_frame.
 
 (* the executable monitor accepts everything the spec allows (so a monitor failure on an
    implementation trace is a spec violation) *)
